@@ -80,6 +80,11 @@ pub fn run_cli(args: &[String], cwd: &Path, uid: Option<u32>, prefix: &[&str], t
       Ok(Some(st)) => break st.code(),
       Ok(None) => {
         if start.elapsed() > timeout {
+          // slow is not hung: a child that still consumes CPU (a loaded machine, `nice`,
+          // `taskset`) gets up to four times the limit; one whose threads all sleep does not
+          if start.elapsed() < timeout * 4 && super::procpool::still_working(child.id()) {
+            continue;
+          }
           let _ = child.kill();
           let _ = child.wait();
           hang = true;
@@ -511,10 +516,13 @@ fn gen_tree(rng: &mut Rng, tag: &str, nfiles: usize, pv: &Priv, seed: u64) -> Tr
   let mut specials = vec![Kind::TooLarge, Kind::LargeFewLines, Kind::ManyLinesSmall];
   for i in 0..nfiles {
     let dir = dirs[rng.below(dirs.len())].clone();
-    let ext: &'static str = match rng.below(10) {
+    // html: a page with an embedded script (the same statements as a .js file) and a style; the
+    // walker hands such files to JavaScript commands too (the script is an injected document)
+    let ext: &'static str = match rng.below(12) {
       0 => "ts",
       1 => "txt",
       2 => "py",
+      3 | 4 => "html",
       _ => "js",
     };
     let kind = if !specials.is_empty() && i % 17 == 3 {
@@ -531,17 +539,24 @@ fn gen_tree(rng: &mut Rng, tag: &str, nfiles: usize, pv: &Priv, seed: u64) -> Tr
     let ext = if matches!(kind, Kind::TooLarge | Kind::LargeFewLines | Kind::ManyLinesSmall) { "js" } else { ext };
     let rel = format!("{dir}f{i}.{ext}");
     let path = tree_root.join(&rel);
+    let page = |body: String| -> String {
+      if ext == "html" {
+        format!("<html>\n<head>\n<style>\n  a {{ color: red }}\n</style>\n</head>\n<body>\n<script>\n{body}</script>\n<p>console.log(0) in the markup</p>\n</body>\n</html>\n")
+      } else {
+        body
+      }
+    };
     let content: Vec<u8> = match kind {
-      Kind::Normal => gen_source(rng, &mut serial, true).into_bytes(),
-      Kind::NoMatch => gen_source(rng, &mut serial, false).into_bytes(),
+      Kind::Normal => page(gen_source(rng, &mut serial, true)).into_bytes(),
+      Kind::NoMatch => page(gen_source(rng, &mut serial, false)).into_bytes(),
       Kind::Empty => vec![],
       Kind::BadUtf8 => {
-        let mut v = gen_source(rng, &mut serial, true).into_bytes();
+        let mut v = page(gen_source(rng, &mut serial, true)).into_bytes();
         let at = rng.below(v.len() + 1);
         v.insert(at, 0xff);
         v
       }
-      Kind::Unreadable => gen_source(rng, &mut serial, true).into_bytes(),
+      Kind::Unreadable => page(gen_source(rng, &mut serial, true)).into_bytes(),
       Kind::TooLarge => content_with(3_000_400 + rng.below(1000), 200_010 + rng.below(100)).unwrap(),
       Kind::LargeFewLines => content_with(3_000_400 + rng.below(1000), 3 + rng.below(100)).unwrap(),
       Kind::ManyLinesSmall => content_with(400_000 + rng.below(1000), 200_010 + rng.below(100)).unwrap(),
@@ -648,7 +663,7 @@ fn all_ext(_: &str) -> bool {
   true
 }
 fn js_ext(e: &str) -> bool {
-  e == "js"
+  e == "js" || e == "html"
 }
 
 struct Single {
